@@ -29,9 +29,16 @@ type Prog struct {
 	NumPkgs int
 	Tags    string
 	RepoDir string
+	Renames []string // baseline names resolved to renamed symbols (symbols.go)
 }
 
-func short(s string) string { return strings.ReplaceAll(s, modPrefix, "") }
+func short(s string) string {
+	s = strings.ReplaceAll(s, modPrefix, "")
+	if len(typeAliases) > 0 {
+		s = applyTypeAliases(s)
+	}
+	return s
+}
 
 // FnName is the key under which a function is addressed by the rules:
 // "(*controller.Controller).WriteAt", "controller.getReplicaChain",
@@ -40,7 +47,7 @@ func FnName(f *ssa.Function) string {
 	if f == nil {
 		return "<nil>"
 	}
-	return short(f.String())
+	return aliasedFnName(f)
 }
 
 func isJivaPkg(p *types.Package) bool {
@@ -87,7 +94,8 @@ func loadProg(repo string, tags string, overlay map[string][]byte) (*Prog, error
 	prog.Build()
 	all := ssautil.AllFunctions(prog)
 	cg := vta.CallGraph(all, cha.CallGraph(prog))
-	P := &Prog{Pkgs: pkgs, Fset: prog.Fset, SSA: prog, CG: cg, byName: map[string]*ssa.Function{}, NumPkgs: len(pkgs), Tags: tags, RepoDir: repo}
+	renames := applyBaseline(prog, all)
+	P := &Prog{Renames: renames, Pkgs: pkgs, Fset: prog.Fset, SSA: prog, CG: cg, byName: map[string]*ssa.Function{}, NumPkgs: len(pkgs), Tags: tags, RepoDir: repo}
 	for f := range all {
 		if f.Pkg == nil && f.Parent() == nil && f.Synthetic == "" {
 			continue
@@ -183,7 +191,7 @@ func CalleeName(in ssa.Instruction) string {
 		return "invoke:" + short(types.TypeString(cc.Value.Type(), nil)) + "." + cc.Method.Name()
 	}
 	if f := cc.StaticCallee(); f != nil {
-		return short(f.String())
+		return FnName(f)
 	}
 	if b, ok := cc.Value.(*ssa.Builtin); ok {
 		return "builtin:" + b.Name()
